@@ -403,8 +403,13 @@ def markFirst (nm : String) : List OA → Option (List OA)
 def markFrom (cnt : Nat) (nm : String) (l : List OA) : Option (List OA) :=
   (markFirst nm (l.drop cnt)).map (l.take cnt ++ ·)
 
+/-- does an own attribute that repeats an inherited name mark the inherited attribute derived?  In the DERIVE clause: yes.
+    An explicit (type-narrowing) redeclaration: as the regenerated `explicitRedeclMarksDerived` says. -/
+def marksDerivedM (m : Bool) (a : Attr) : Bool := a.kind == .derived || m
+def marksDerived (a : Attr) : Bool := marksDerivedM explicitRedeclMarksDerived a
+
 /-- `populateAttrList`: supertypes first; an own attribute whose name occurs among the entries added for this
-    entity's supertypes marks that entry as derived by this entity (also for an explicit redeclaration), otherwise
+    entity's supertypes adds no entry and (when `marksDerived`) marks that entry as derived by this entity, otherwise
     it is appended (derived when it has an initializer) -/
 def populate (s : Schema) : Nat → String → List OA → List OA
   | 0, _, l => l
@@ -416,7 +421,7 @@ def populate (s : Schema) : Nat → String → List OA → List OA
       let l1 := e.supers.foldl (fun acc sup => populate s f sup acc) l
       e.attrs.foldl (fun acc a =>
         match markFrom cnt a.name acc with
-        | some acc' => acc'
+        | some acc' => if marksDerived a then acc' else acc
         | none => acc ++ [{ name := a.name, creator := n, deriver := a.kind == .derived }]) l1
 
 /-- `dedupList`: first occurrence of (name, creator) stays -/
